@@ -169,6 +169,11 @@ def documents(tier):
         rn = rename_spec(sp, SUBSTRING_NAMES)
         for k in (0, len(pw) // 2):
             docs.append((f"{rn['name']}#s{k}", dump_yaml(to_yaml_doc(rn, pw[k]), flow=pw[k].get("flow")), pw[k]))
+    from .family import scale_documents
+    for sp in scale_documents():
+        for k in (0, 3, 7):
+            st = pw[k % len(pw)]
+            docs.append((f"{sp['name']}#s{k}", dump_yaml(to_yaml_doc(sp, st), flow=st.get("flow")), st))
     for n in SHIPPED_ALL:
         with open(shipped_path(n)) as f:
             docs.append((n, f.read(), {"shipped": True}))
